@@ -43,6 +43,31 @@ class Twiddles(object):
             P.declare_quadratic("tw%d_h" % M, sq)
             self.g = Sym(cc, -ss, True)
             return
+        if M in (16, 32):
+            # tower of square roots: a = sqrt 2, b = sqrt(2 + a), c = sqrt(2 + b); cos(pi/8) = b/2, sin(pi/8) = (ab - b)/2,
+            # cos(pi/16) = c/2, sin(pi/16) = (ab - b) c (2 - b)(2 + a)/4.  The squares are rewritten on sight.
+            a = Sym(Q.var("tw%d_a" % M, kind='twiddle'))
+            b = Sym(Q.var("tw%d_b" % M, kind='twiddle'))
+            pa, pb = P.get_var("tw%d_a" % M), P.get_var("tw%d_b" % M)
+            for v in (a, b):
+                c.axioms.append(SymBool.cmp('<', -v.re))
+            c.axioms.append(SymBool('cmp', '==', Q.make(pa * pa - P.Poly.const(2))))
+            c.axioms.append(SymBool('cmp', '==', Q.make(pb * pb - pa - P.Poly.const(2))))
+            P.declare_quadratic("tw%d_a" % M, 2)
+            P.declare_quadratic("tw%d_b" % M, pa + P.Poly.const(2))
+            if M == 16:
+                cc = b.re * _q(Fraction(1, 2))
+                ss = (a.re * b.re - b.re) * _q(Fraction(1, 2))
+            else:
+                cv_ = Sym(Q.var("tw%d_c" % M, kind='twiddle'))
+                pc = P.get_var("tw%d_c" % M)
+                c.axioms.append(SymBool.cmp('<', -cv_.re))
+                c.axioms.append(SymBool('cmp', '==', Q.make(pc * pc - pb - P.Poly.const(2))))
+                P.declare_quadratic("tw%d_c" % M, pb + P.Poly.const(2))
+                cc = cv_.re * _q(Fraction(1, 2))
+                ss = (a.re * b.re - b.re) * cv_.re * (_q(2) - b.re) * (_q(2) + a.re) * _q(Fraction(1, 4))
+            self.g = Sym(cc, -ss, True)
+            return
         cs = Sym(Q.var("tw%d_c" % M, kind='twiddle'))
         sn = Sym(Q.var("tw%d_s" % M, kind='twiddle'))
         self.g = Sym(cs.re, -sn.re, True)
